@@ -22,7 +22,7 @@ impl Worker {
     pub fn reset(&mut self) {
         self.d = Driver::new();
         self.cache.clear();
-        self.counter = 0;
+        // the counter is never reset: a physical name always denotes one content
         self.rebuilds += 1;
     }
 
